@@ -399,11 +399,11 @@ impl<S3, NI> MultiLane<[u64; 2]> for u64x2_sse2<S3, NoS4, NI> {
 impl<S3, S4, NI> MultiLane<[u128; 1]> for u128x1_sse2<S3, S4, NI> {
     #[inline(always)]
     fn to_lanes(self) -> [u128; 1] {
-        unimplemented!()
+        unsafe { [core::mem::transmute::<__m128i, u128>(self.x)] }
     }
     #[inline(always)]
     fn from_lanes(xs: [u128; 1]) -> Self {
-        unimplemented!("{:?}", xs)
+        Self::new(unsafe { core::mem::transmute::<u128, __m128i>(xs[0]) })
     }
 }
 
